@@ -178,6 +178,7 @@ func genbankDBLinkPairParser(gb *GenBank, depth int) pars.Parser {
 		s := string(result.Token)
 		switch i := strings.IndexByte(s, ':'); i {
 		case -1:
+			state.Clear()
 			return pars.NewError("expected `:`", state.Position())
 		default:
 			if len(s) < i+3 {
